@@ -599,7 +599,7 @@ impl<'a> VisitMut for HofPass<'a> {
             }
             // E.and_then(|p| B) ==> match E { Some(p) => B, None => None };  E.is_some_and(|p| B) ==> match E { Some(p) => B, None => false }
             if let Expr::MethodCall(mc) = e {
-                if (mc.method == "and_then" || mc.method == "is_some_and") && mc.args.len() == 1 {
+                if (mc.method == "and_then" || mc.method == "is_some_and" || mc.method == "is_none_or") && mc.args.len() == 1 {
                     if let Expr::Closure(cl) = &mc.args[0] {
                         if cl.inputs.len() == 1 {
                             let recv = &mc.receiver;
@@ -629,6 +629,9 @@ impl<'a> VisitMut for HofPass<'a> {
                             let body = &body;
                             let new: Expr = if mc.method == "and_then" {
                                 parse_quote! { match (#recv) { Some(#pat) => #body, None => None } }
+                            } else if mc.method == "is_none_or" {
+                                // Option::is_none_or (std): `match self { None => true, Some(x) => f(x) }`
+                                parse_quote! { match (#recv) { Some(#pat) => #body, None => true } }
                             } else {
                                 parse_quote! { match (#recv) { Some(#pat) => #body, None => false } }
                             };
